@@ -164,6 +164,7 @@ def run(tier='quick'):
     c08.chain_trigger_siblings(prog, chk, T1, tables=(), views=('playlistallchildren', 'playlistallparent', 'playlistpath'))
     # ---- T2 --------------------------------------------------------------------------
     cycle_guard(prog, cg, eff, chk, T2, spec)
+    cycle_guard_table(prog, cg, eff, chk, T2)
 
     # ---- T3 --------------------------------------------------------------------------
     _name_validation(prog, cg, eff, chk, T3)
@@ -708,6 +709,41 @@ def cycle_guard(prog, cg, eff, chk, T2, spec=None):
                               'becomes cyclic (2.x: the recursive views then never terminate)' % (
                                   _short(qn), 'no read of %s keyed on id() precedes the first write' % role['table']
                                   if not cl else 'no throw depends on the closure query'))
+
+
+def cycle_guard_table(prog, cg, eff, chk, rid):
+    """The same guard one level down: v2::playlist_table::update is public, and a row whose parent is one of
+    its own descendants makes the recursive views (and the isPersist triggers that read them) run forever.
+    Before its first write, update() reads the closure view keyed by the id of the row it was given, and a
+    throw depends on what it read."""
+    qn = V2 + 'playlist_table::update'
+    for f, ip, ret in evaluate(prog, cg, eff, qn):
+        chk.analysed(f)
+        # the branch that re-parents: its first statement is the detaching UPDATE of nextListId, which no other
+        # branch issues; the plain UPDATE of the unchanged position lies on another path
+        moving = [w.seq for w in ip.writes if (w.column or '') == 'parentlistid']
+        if not moving:
+            raise AnalysisBroken('playlist_table::update writes no parentListId')
+        first_write = min([w.seq for w in ip.writes if (w.column or '') == 'nextlistid'] + moving)
+        cl = [rd for rd in ip.reads if 'playlistallchildren' in _tables_of(rd) and rd.seq < first_write
+              and any(c.lower() == 'id' and any(x[0] == 'in' for x in vf.leaves(v)) for c, v in (rd.where or {}).items())]
+        guarded = False
+        for (seq, ty, node, fn, conds) in ip.throws:
+            if seq > first_write:
+                continue
+            for c in conds:
+                if any(x[0] == 'loc' and (x[1] or '').lower() == 'playlistallchildren' for x in vf.leaves(c)):
+                    guarded = True
+        inst = '%s: closure query keyed by the row id before the first write, with a dependent throw' % _short(qn)
+        if cl and guarded:
+            chk.ok(rid, inst, cl[0].loc)
+        else:
+            chk.violation(rid, '%s|no cycle guard' % _short(qn), locstr(f.node),
+                          '%s: not so (%s) - a row whose parent_list_id is one of its own descendants is written; with '
+                          'is_persisted set the isPersistParent trigger then recurses through PlaylistAllParent without '
+                          'end and the call never returns, otherwise the cycle is stored and the next descendant_ids() '
+                          'hangs' % (inst, 'no read of PlaylistAllChildren keyed by the row id precedes the first write'
+                                     if not cl else 'no throw depends on the closure query'))
 
 
 def _const(prog, name):
